@@ -1727,7 +1727,7 @@ def mixes_float_with_wide_integer(schema, inst):
     _numbers(schema, ns)
     _numbers(inst, ns)
     wide = any(abs(x) > 2 ** 53 for x in ns)
-    return wide and any(isinstance(x, float) for x in ns)
+    return wide and (any(isinstance(x, float) for x in ns) or '"multipleOf"' in json.dumps(schema))   # multipleOf is computed in floating point
 
 
 # ------------------------------------------------------------------------------------------------ judging
